@@ -12,6 +12,8 @@ pub enum FsInfoInit {
     Custom { count: u32, hint: u32 },
     /// correct count, but the (advisory) next-free hint names a cluster that is in use
     HintInUse,
+    /// correct count, hint = a value that names no cluster of this volume (0, 1, first past the end, ...)
+    HintOutside,
 }
 
 #[derive(Clone, Debug)]
@@ -198,9 +200,11 @@ impl Geom {
                 2 => clusters + 1, // the very last cluster
                 _ => 2 + rng.below(clusters as u64) as u32,
             };
-            g.fsinfo = match rng.below(5) {
+            g.fsinfo = match rng.below(7) {
                 0 => FsInfoInit::Unknown,
                 1 => FsInfoInit::HintInUse,
+                // a truthful count with a hint that names no cluster of the volume
+                2 => FsInfoInit::HintOutside,
                 _ => FsInfoInit::Correct,
             };
             g.high_nibbles = rng.chance(1, 3);
@@ -795,6 +799,10 @@ impl Fmt {
                     let used: Vec<u32> = (2..g.clusters + 2).filter(|&c| self.fat[c as usize] & 0x0FFF_FFFF != 0).collect();
                     let pick = if used.is_empty() { 2 } else { used[(used.len() * 2 / 3).min(used.len() - 1)] };
                     (free, pick)
+                }
+                FsInfoInit::HintOutside => {
+                    let v = [0u32, 1, g.clusters + 2, g.clusters + 3, 0x0FFF_FFF0, 0xFFFF_FFFE];
+                    (free, v[(free as usize + g.clusters as usize) % v.len()])
                 }
             };
             s[488..492].copy_from_slice(&count.to_le_bytes());
